@@ -6,16 +6,19 @@ sys.path.insert(0, os.path.dirname(os.path.abspath(__file__)))
 from seed_eval import run_checks, sh, VERIF
 
 def evaluate(d):
-    _, st = sh("git -C /repo status --porcelain")
-    assert not st.strip(), "/repo not clean"
-    c, o = sh(f"git -C /repo apply {d}/patch.diff")
-    if c != 0:
-        return {"error": "patch does not apply: " + o[:200]}
+    # a scratch worktree of /repo's HEAD carries the change (/repo itself is not touched)
+    tmp = tempfile.mkdtemp(prefix="rfeval-")
+    os.rmdir(tmp)
     try:
-        ct, ot = sh("/venv/bin/python -m pytest -q -p no:cacheprovider --timeout=900 2>&1 | tail -1", cwd="/repo")
-        res = run_checks()
+        sh(f"git -C /repo worktree add --detach {tmp} HEAD")
+        c, o = sh(f"git apply {d}/patch.diff", cwd=tmp)
+        if c != 0:
+            return {"error": "patch does not apply: " + o[:200]}
+        ct, ot = sh("/venv/bin/python -m pytest -q -p no:cacheprovider --timeout=900 2>&1 | tail -1", cwd=tmp, env=dict(os.environ, PYTHONPATH=f"{tmp}/src"))
+        res = run_checks(tmp)
     finally:
-        sh("git -C /repo checkout -- .")
+        sh(f"git -C /repo worktree remove --force {tmp}")
+        shutil.rmtree(tmp, ignore_errors=True)
     return {"suite": ot.strip(), "alarms": {p: r["viol"][:4] for p, r in res.items() if r["code"] == 1},
             "inconclusive": {p: r["inc"][:3] for p, r in res.items() if r["code"] == 2}}
 
